@@ -328,8 +328,11 @@ func init() {
 							switch res.At(ri).Type().Underlying().(type) {
 							case *types.Pointer:
 							case *types.Slice, *types.Interface:
-								// what another package hands back with an error: bytes not all there, a connection not made
-								if own {
+								// bytes not all there, a connection not made. One of the
+								// package's own functions may hand its buffer back with the
+								// error on purpose (readString does); only those that return
+								// nil whenever they return an error are held to the rule
+								if own && !nilWithError(g, ri) {
 									continue
 								}
 							default:
@@ -941,4 +944,27 @@ func init() {
 			r.check(okInc && nInc == 1, "only streams of that origin are counted", p.pos(fd.Pos()), "cnt++ under origType == frameType, nowhere else", "getPrevious no longer counts exactly the streams of the origin asked for")
 		},
 	})
+}
+
+// nilWithError: every return of g whose error operand is not the constant nil
+// has the constant nil as result ri.
+func nilWithError(g *ssa.Function, ri int) bool {
+	n := 0
+	for _, b := range g.Blocks {
+		for _, in := range b.Instrs {
+			ret, ok := in.(*ssa.Return)
+			if !ok || len(ret.Results) <= ri {
+				continue
+			}
+			e := ret.Results[len(ret.Results)-1]
+			if k, isK := e.(*ssa.Const); isK && k.IsNil() {
+				continue
+			}
+			n++
+			if k, isK := ret.Results[ri].(*ssa.Const); !isK || !k.IsNil() {
+				return false
+			}
+		}
+	}
+	return n > 0
 }
